@@ -114,10 +114,10 @@ class C08(Prop):
         elif op in ("add_to_object", "add_to_object_cs", "add_helper"):
             pre.args["obj"] = tree(as_object(jv))
             if op != "add_helper":
-                pre.args["item"] = self.item_variant(lib, pre, tree, jv2, c)
+                pre.args["item"] = self.item_variant(lib, pre, tree, jv2, c, b)
         elif op == "add_to_array":
             pre.args["arr"] = tree(as_array(jv))
-            pre.args["item"] = self.item_variant(lib, pre, tree, jv2, c)
+            pre.args["item"] = self.item_variant(lib, pre, tree, jv2, c, b)
         elif op in ("add_ref_array", "add_ref_object"):
             pre.args["cont"] = tree(as_array(jv) if op == "add_ref_array" else as_object(jv))
             pre.args["target"] = tree(jv2)
@@ -168,10 +168,18 @@ class C08(Prop):
         pre.walk = [lib.walk(r, 1, 1)[0] for r in pre.roots]
         return pre
 
-    def item_variant(self, lib, pre, tree, jv2, c):
+    def item_variant(self, lib, pre, tree, jv2, c, pre_b=0):
         """the item handed to an add call: an ordinary tree, or a reference item the caller made itself
         (cJSON_Create{String,Object,Array}Reference) - on failure it still belongs to the caller"""
         k = c % 8
+        if k in (3, 4):
+            # an item that already owns a key (a former member): the very name it will be added under, or another one
+            it = tree(jv2)
+            tmp = lib.cJSON_CreateObject()
+            lib.cJSON_AddItemToObject(tmp, KEYS[(pre_b if k == 3 else pre_b + 1) % len(KEYS)], it)
+            lib.cJSON_DetachItemViaPointer(tmp, it)
+            lib.cJSON_Delete(tmp)
+            return it
         if k < 5:
             return tree(jv2)
         if k == 5:
@@ -201,7 +209,7 @@ class C08(Prop):
             elif k == 1:
                 t = lib.take_text(lib.cJSON_PrintUnformatted(A["tree"]))
             else:
-                t = lib.take_text(lib.cJSON_PrintBuffered(A["tree"], [0, 1, 16, 255, 256, 1000][b % 6], c & 1))
+                t = lib.take_text(lib.cJSON_PrintBuffered(A["tree"], [0, 1, 16, 255, 256, 1000, 5000, 8192, 70000, 3][b % 10], c & 1))
             return t, t is None
         if op == "create":
             k = a % 12
